@@ -154,6 +154,21 @@ fn stream_find(b: &Built, rdr: SchedReader) -> Result<Vec<Result<M, String>>, St
 
 /// keep iterating after an error item (the injected fault is transient): returns the items and
 /// whether the iterator ended (None) — used for "end of stream only when the reader reports it"
+fn stream_protocol(b: &Built, data: &[u8], si: usize, want: &[Result<M, String>]) -> Result<(), String> {
+    fn conv(r: io::Result<aho_corasick::Match>) -> Result<M, String> {
+        r.map(crate::eng::cv).map_err(|e| e.to_string())
+    }
+    fn generic<A: aho_corasick::automaton::Automaton>(a: A, data: &[u8], si: usize, want: &[Result<M, String>]) -> Result<(), String> {
+        gen::iter_protocol(&|| aho_corasick::automaton::Automaton::try_stream_find_iter(&a, SchedReader { data, pos: 0, sched: SCHEDS[si], i: 0, fail_at: None, eof: None }).unwrap(), &conv, want)
+    }
+    match b {
+        Built::Top(t) => gen::iter_protocol(&|| t.try_stream_find_iter(SchedReader { data, pos: 0, sched: SCHEDS[si], i: 0, fail_at: None, eof: None }).unwrap(), &conv, want),
+        Built::NC(a) => generic(a, data, si, want),
+        Built::C(a) => generic(a, data, si, want),
+        Built::D(a) => generic(a, data, si, want),
+    }
+}
+
 fn stream_find_resume(b: &Built, rdr: SchedReader) -> Result<(Vec<Result<M, String>>, bool), String> {
     fn go<I: Iterator<Item = io::Result<aho_corasick::Match>>>(it: I) -> (Vec<Result<M, String>>, bool) {
         let mut out = vec![];
@@ -237,6 +252,15 @@ pub fn check_one(rep: &Report, cfg: &Cfg, b: &Built, pats: &[Vec<u8>], data: &[u
     rep.case(!want.is_empty());
     if !ok {
         fail(rep, "find_iter", cfg, pats, data, si, spare, None, format!("expected {:?}, got {:?}", want, got));
+    }
+    // ... the stream iterator type obeys the Iterator protocol (nth, skip, step_by, count, last, ...)
+    if ok && want.len() <= 6 {
+        let wantr: Vec<Result<M, String>> = want.iter().cloned().map(Ok).collect();
+        let r = catch_unwind(AssertUnwindSafe(|| stream_protocol(b, data, si, &wantr)));
+        rep.case(!want.is_empty());
+        if !matches!(&r, Ok(Ok(()))) {
+            fail(rep, "stream iterator protocol", cfg, pats, data, si, spare, None, format!("{:?}", r));
+        }
     }
     // ... and equals the in-memory iterator of the very same searcher
     let mem = catch_unwind(AssertUnwindSafe(|| b.try_find_iter(data, 0, data.len(), false)));
@@ -502,6 +526,8 @@ pub fn run(args: &Args) -> Report {
     lists.push(vec![b"BAB".to_vec()]);
     lists.push(vec![b"A".to_vec(), b"Bb".to_vec()]);
     lists.push(vec![b"aaaaaaaaaaaa".to_vec(), b"aab".to_vec(), b"b".to_vec()]);
+    // no patterns at all: nothing to find, but the reader is still read (and its failures surface)
+    lists.push(vec![]);
     // a pattern longer than 8 KiB: the retained tail (min) times 8 exceeds the default capacity
     let longpat: Vec<u8> = (0..9000usize).map(|i| b"ab"[(i * i / 7) % 2]).collect();
     long_pattern_case(&rep, &longpat);
@@ -527,6 +553,10 @@ pub fn run(args: &Args) -> Report {
     cfgs.push(Cfg { engine: Engine::TopAuto, sk: StartKindC::U, mk: Kind::Std, ci: false, pre: false, dd: Some(0), bc: false });
     cfgs.push(Cfg { engine: Engine::LowNonContig, sk: StartKindC::B, mk: Kind::Std, ci: true, pre: false, dd: Some(2), bc: true });
     cfgs.push(Cfg { engine: Engine::TopAuto, sk: StartKindC::U, mk: Kind::Std, ci: true, pre: true, dd: None, bc: true });
+    // a DFA with both start states (front end and low level), and the other explicit kinds
+    cfgs.push(Cfg { engine: Engine::LowDfa, sk: StartKindC::B, mk: Kind::Std, ci: false, pre: true, dd: None, bc: true });
+    cfgs.push(Cfg { engine: Engine::TopDfa, sk: StartKindC::B, mk: Kind::Std, ci: false, pre: true, dd: None, bc: false });
+    cfgs.push(Cfg { engine: Engine::TopNonContig, sk: StartKindC::U, mk: Kind::Std, ci: false, pre: true, dd: None, bc: true });
     par_for(&lists, |pats| {
         for (ci, cfg) in cfgs.iter().enumerate() {
             if !thorough && faults && ci % 2 == 1 {
